@@ -2076,6 +2076,12 @@ class TextPropsKeybind(JMCFunction):
 )
 class TextPropNBT(JMCFunction):
     def call(self) -> str:
+        if self.args["nbt"].count(" ") < 2:
+            raise JMCValueError(
+                f"Expected a path in the NBT of {self.call_string}",
+                self.raw_args["nbt"].token,
+                self.tokenizer,
+            )
         nbt_type, source, path = self.args["nbt"].split(" ", 2)
         output: SIMPLE_JSON_BODY = {
             nbt_type: source,
@@ -2108,6 +2114,13 @@ class TextPropNBT(JMCFunction):
 )
 class TextPropsNBT(JMCFunction):
     def call(self) -> str:
+        if self.args["nbt"].count(" ") < 2:
+            raise JMCValueError(
+                f"Expected a path in the NBT of {self.call_string}",
+                self.raw_args["nbt"].token,
+                self.tokenizer,
+            )
+
         @lru_cache()
         def inner(arg: str) -> SIMPLE_JSON_BODY:
             nbt_type, source, path = (
@@ -2145,6 +2158,12 @@ class DebugWatch(JMCFunction):
             raise JMCSyntaxException(
                 f"At least 1 variable operation was performed before calling {self.call_string}",
                 self.self_token,
+                self.tokenizer,
+            )
+        if len(self.args["variable"].split()) != 2:
+            raise JMCValueError(
+                f"Expected variable or objective:selector in {self.call_string}",
+                self.raw_args["variable"].token,
                 self.tokenizer,
             )
         objective, player = self.args["variable"].split()
